@@ -58,6 +58,19 @@ def uniqueBatchWith (split : Nat → Nat → Nat → Nat × Nat) (nB bB nT bT id
 
 def uniqueBatch := uniqueBatchWith uniqueSplit
 
+/-- another way to fill the last window of an axis when `bs` does not divide `n`: its last `bs` rows, one
+    contiguous slice `[min((idx+1)·bs, n) − bs, min((idx+1)·bs, n))` (instead of the tail followed by the first rows).
+    Which rows fill the incomplete window is not fixed by the property; the model covers both policies. -/
+def lastSlice (n bs idx : Nat) : List Nat :=
+  let stop := min ((idx + 1) * bs) n
+  let start := stop - bs
+  (List.range (stop - start)).map (· + start)
+
+/-- the per-function data set with a given window policy -/
+def uniqueBatchWin (win : Nat → Nat → Nat → List Nat) (nB bB nT bT idx : Nat) : List Nat × List Nat :=
+  let s := uniqueSplit (ceilDiv nB bB) (ceilDiv nT bT) idx
+  (win nB bB s.1, win nT bT s.2)
+
 /-- all (function, location) pairs presented in a pass -/
 def pairsOf (batches : List (List Nat × List Nat)) : List (Nat × Nat) :=
   batches.flatMap fun b => b.1.flatMap fun f => b.2.map fun x => (f, x)
@@ -69,6 +82,9 @@ def uniquePassWith (split : Nat → Nat → Nat → Nat × Nat) (nB bB nT bT : N
   (List.range (uniqueLen nB bB nT bT)).map (uniqueBatchWith split nB bB nT bT)
 
 def uniquePass := uniquePassWith uniqueSplit
+
+def uniquePassWin (win : Nat → Nat → Nat → List Nat) (nB bB nT bT : Nat) : List (List Nat × List Nat) :=
+  (List.range (uniqueLen nB bB nT bT)).map (uniqueBatchWin win nB bB nT bT)
 
 def coversAll (nB nT : Nat) (ps : List (Nat × Nat)) : Bool :=
   (List.range nB).all fun f => (List.range nT).all fun x => ps.contains (f, x)
